@@ -854,7 +854,9 @@ APP_SCRIPTS = [
 APP_GAPS = [(0, 0, 0, 0, 0), (4, 4, 4, 4, 4), (4, 0, 0, 0, 0), (2, 1, 0, 1, 0), (0, 3, 0, 0, 1),
             (4, 4, 4, 0, 0), (4, 4, 0, 4, 0), (1, 1, 1, 1, 1)]
 APP_CONSUMERS = [("callbacks", 0, 0), ("iter", 0, 0), ("iter", 0, 2), ("iter", 0, 5), ("iter", 3, 0),
-                 ("iter", 6, 1), ("iter", 12, 0)]
+                 ("iter", 6, 1), ("iter", 12, 0),
+                 # a polling consumer: every wait is bounded by asyncio.wait_for, timed-out waits are repeated
+                 ("poll", 0, 0), ("poll", 0, 2), ("poll", 3, 0)]
 
 
 def level_c_cases(env):
